@@ -68,8 +68,8 @@ impl OutputEvent {
 //@ replace?[R-closure-param] <<<Err(_) => OutputEvent::Other(Event::End(e)),>>> => <<<Err(_) => OutputEvent::Other(Event::End(e)),>>>
 //@ ensures
 //@ - value.event is Text && r is Text ==> xml_unescape(value.event->Text_0.raw()) == Some(r->Text_0@)     @@C03.text.decoded @@C05.text.decoded
-//@ - value.event is Comment && r is Comment ==> str_bytes(r->Comment_0@) == value.event->Comment_0.raw()     @@C03.comment.verbatim
-//@ - value.event is CData && r is CData ==> str_bytes(r->CData_0@) == value.event->CData_0.raw()     @@C03.cdata.verbatim
+//@ - value.event is Comment && r is Comment ==> str_bytes(r->Comment_0@) == value.event->Comment_0.raw()     @@C03.comment.verbatim @@C05.comment.verbatim
+//@ - value.event is CData && r is CData ==> str_bytes(r->CData_0@) == value.event->CData_0.raw()     @@C03.cdata.verbatim @@C05.cdata.verbatim
 //@end
 }
 
